@@ -39,6 +39,7 @@ type cliEnv struct {
 	rsas     []*pkey
 	tol      []*pkey // lines that may be skipped: rsa1024, ecdsa1
 	stranger *pkey
+	ghost    *pkey // occurs only inside over-long comment lines
 
 	byLine map[string]*pkey
 }
@@ -48,19 +49,28 @@ var unlockFK = mon.DetBytes("c18-unlock-file-key", 16)
 func pluginStanzaType(name string) string { return "st-" + name }
 
 type cliCase struct {
-	mode string // "R", "e-i", "d-i"
+	mode string // "R", "e-i", "d-i", "enc-d-i"
 	n    int    // key lines (valid + corrupted)
 	tol  int    // R: tolerated lines mixed in
 	pos  int    // corrupted key line, -1 none
 	typ  string // type of the corrupted line: "X", "P", "E", "R"
 	kind string
-	// d-i: which key line the message is addressed to; -1 = a key not in the file, -2 = the unlock plugin line (appended)
+	// d-i: which key line the message is addressed to; -1 = a key not in the file, -2 = the unlock plugin line (appended),
+	// -3 = the key that occurs only inside the over-long comment
 	target int
 	rep    int
+	long   int // index into longVars of an over-long comment line, -1 for none
+	at     int // it goes before key line at (at == n: after the last)
 }
 
+func (c cliCase) dec() bool { return c.mode == "d-i" || c.mode == "enc-d-i" }
+
 func (c cliCase) name() string {
-	return fmt.Sprintf("cli/%s/n%d/t%d/p%d/%s/%s/tg%d/%d", c.mode, c.n, c.tol, c.pos, c.typ, c.kind, c.target, c.rep)
+	s := fmt.Sprintf("cli/%s/n%d/t%d/p%d/%s/%s/tg%d/%d", c.mode, c.n, c.tol, c.pos, c.typ, c.kind, c.target, c.rep)
+	if c.long >= 0 {
+		s += fmt.Sprintf("/%s@%d", longVars[c.long].Name, c.at)
+	}
+	return s
 }
 
 func letters(i int) string {
@@ -120,6 +130,7 @@ func cliPart(r *mon.Run) {
 		e.xs = append(e.xs, newX(fmt.Sprintf("c18-cx%d", i)))
 	}
 	e.stranger = newX("c18-stranger")
+	e.ghost = newX("c18-ghost")
 	for _, n := range []string{"ed1", "ed2", "ed3"} {
 		e.eds = append(e.eds, newSSH(n))
 	}
@@ -158,11 +169,11 @@ func cliPart(r *mon.Run) {
 	for rep := 0; rep < r.Pick(10, 30); rep++ {
 		for n := 0; n <= 6; n++ {
 			for tol := 0; tol <= 2; tol++ {
-				cases = append(cases, cliCase{"R", n, tol, -1, "", "", 0, rep})
+				cases = append(cases, cliCase{"R", n, tol, -1, "", "", 0, rep, -1, 0})
 			}
-			cases = append(cases, cliCase{"e-i", n, 0, -1, "", "", 0, rep})
+			cases = append(cases, cliCase{"e-i", n, 0, -1, "", "", 0, rep, -1, 0})
 			for tg := -2; tg < n; tg++ {
-				cases = append(cases, cliCase{"d-i", n, 0, -1, "", "", tg, rep})
+				cases = append(cases, cliCase{"d-i", n, 0, -1, "", "", tg, rep, -1, 0})
 			}
 		}
 	}
@@ -176,13 +187,58 @@ func cliPart(r *mon.Run) {
 			for pos := 0; pos < n; pos++ {
 				for _, t := range []tk{{"X", nativeKinds}, {"P", pluginKinds}, {"E", sshKinds}, {"R", sshKinds}} {
 					for _, kind := range t.kinds {
-						cases = append(cases, cliCase{"R", n, (n + pos + rep) % 2, pos, t.typ, kind, 0, rep})
+						cases = append(cases, cliCase{"R", n, (n + pos + rep) % 2, pos, t.typ, kind, 0, rep, -1, 0})
 						if t.typ == "X" || t.typ == "P" {
-							cases = append(cases, cliCase{"e-i", n, 0, pos, t.typ, kind, 0, rep})
+							cases = append(cases, cliCase{"e-i", n, 0, pos, t.typ, kind, 0, rep, -1, 0})
 							// the message goes to a valid line of the file; for a file
 							// holding only the corrupted line, to that line's own key
 							tg := (pos + 1 + rep) % n
-							cases = append(cases, cliCase{"d-i", n, 0, pos, t.typ, kind, tg, rep})
+							cases = append(cases, cliCase{"d-i", n, 0, pos, t.typ, kind, tg, rep, -1, 0})
+						}
+					}
+				}
+			}
+		}
+	}
+	// the same parser behind a passphrase-protected identity file (age -d -i enc.age):
+	// the plaintext of the file is the assembled key file
+	for rep := 0; rep < r.Pick(2, 6); rep++ {
+		for n := 0; n <= 4; n++ {
+			for tg := -2; tg < n; tg++ {
+				cases = append(cases, cliCase{"enc-d-i", n, 0, -1, "", "", tg, rep, -1, 0})
+			}
+		}
+	}
+	for n := 1; n <= r.Pick(3, 4); n++ {
+		for pos := 0; pos < n; pos++ {
+			for _, t := range []tk{{"X", nativeKinds}, {"P", pluginKinds}} {
+				for _, kind := range t.kinds {
+					cases = append(cases, cliCase{"enc-d-i", n, 0, pos, t.typ, kind, (pos + 1) % n, 0, -1, 0})
+				}
+			}
+		}
+	}
+	// over-long comment lines on every route: among valid keys (all keys count,
+	// in order; the key inside the comment does not) and around a corrupted key
+	// (the reported line number is the true one)
+	longKinds := []string{"subst-data", "trunc1", "lead-space", "hrp-swap", "flip-all", "insert-1"}
+	kc := 0
+	for rep := 0; rep < r.Pick(1, 3); rep++ {
+		for lv, v := range longVars {
+			for _, mode := range []string{"R", "e-i", "d-i", "enc-d-i"} {
+				dec := mode == "d-i" || mode == "enc-d-i"
+				for n := 1; n <= r.Pick(2, 4); n++ {
+					for at := 0; at <= n; at++ {
+						cases = append(cases, cliCase{mode, n, 0, -1, "", "", n - 1, rep, lv, at})
+						if dec && n > 1 {
+							cases = append(cases, cliCase{mode, n, 0, -1, "", "", 0, rep, lv, at})
+						}
+						if dec && v.Boundary > 0 {
+							cases = append(cases, cliCase{mode, n, 0, -1, "", "", -3, rep, lv, at})
+						}
+						for pos := 0; pos < n; pos++ {
+							kc++
+							cases = append(cases, cliCase{mode, n, 0, pos, "X", longKinds[kc%len(longKinds)], (pos + 1) % n, rep, lv, at})
 						}
 					}
 				}
@@ -230,7 +286,7 @@ func runCLI(r *mon.Run, e *cliEnv, idx int, c cliCase, violate func(key, what st
 			return xs[(nx-1)%len(xs)]
 		case "P":
 			np++
-			if c.mode == "d-i" {
+			if c.dec() {
 				return e.noMatchP[(np-1)%len(e.noMatchP)]
 			}
 			return e.encP[(np-1+c.rep)%len(e.encP)]
@@ -267,8 +323,10 @@ func runCLI(r *mon.Run, e *cliEnv, idx int, c cliCase, violate func(key, what st
 	}
 	// the addressee of the message (d-i)
 	var target *pkey
-	if c.mode == "d-i" {
+	if c.dec() {
 		switch {
+		case c.target == -3:
+			target = e.ghost
 		case c.target == -2:
 			target = e.unlockP
 			kl = append(kl, fline{Key: target, Text: target.Sec})
@@ -288,7 +346,16 @@ func runCLI(r *mon.Run, e *cliEnv, idx int, c cliCase, violate func(key, what st
 		at := rng.Intn(len(kl) + 1)
 		kl = append(kl[:at:at], append([]fline{{Key: k, Text: k.Pub}}, kl[at:]...)...)
 	}
-	f := assemble(rng, kl, styles[rng.Intn(len(styles))], eolModes[rng.Intn(3)], rng.Intn(3) > 0, identityFile)
+	layout := kl
+	if c.long >= 0 {
+		embed := e.ghost.Pub
+		if identityFile {
+			embed = e.ghost.Sec
+		}
+		lv := longVars[c.long]
+		layout = insertLine(kl, c.at, fline{Text: longComment(rng, lv, embed), Long: lv.Name})
+	}
+	f := assemble(rng, layout, styles[rng.Intn(len(styles))], eolModes[rng.Intn(3)], rng.Intn(3) > 0, identityFile)
 	data := f.Bytes()
 
 	classify := classifyCLIRecipient
@@ -356,6 +423,17 @@ func runCLI(r *mon.Run, e *cliEnv, idx int, c cliCase, violate func(key, what st
 		outName = "out.txt"
 		os.WriteFile(filepath.Join(dir, "msg.age"), buildMsg(target, plain, name), 0o600)
 		cmd.Argv = []string{e.age, "-d", "-i", "keyfile", "-o", outName, "msg.age"}
+	case "enc-d-i":
+		// "keyfile" is an age file under a passphrase whose plaintext is the key file
+		const pass = "c-eighteen identity passphrase"
+		fk := mon.DetBytes("c18-encid-fk-"+name, 16)
+		st := refage.ScryptWrap(fk, pass, mon.DetBytes("c18-encid-salt-"+name, 16), 6)
+		os.WriteFile(filepath.Join(dir, "keyfile"), refage.BuildFile(fk, []refage.Stanza{st}, mon.DetBytes("c18-encid-nonce-"+name, 16), data), 0o600)
+		outName = "out.txt"
+		os.WriteFile(filepath.Join(dir, "msg.age"), buildMsg(target, plain, name), 0o600)
+		cmd.Argv = []string{e.age, "-d", "-i", "keyfile", "-o", outName, "msg.age"}
+		cmd.TTY = true
+		cmd.Script = []cli.TTYStep{{Expect: "passphrase", Send: pass + "\n"}}
 	}
 	res := cli.Run(cmd)
 	if res.Err != nil || res.TimedOut || res.Exit < 0 {
@@ -384,6 +462,16 @@ func runCLI(r *mon.Run, e *cliEnv, idx int, c cliCase, violate func(key, what st
 	for _, s := range v.Skipped {
 		r.Tab("cli_line_types", mode+" tolerated "+s.Type)
 	}
+	if c.long >= 0 {
+		what := "valid keys only"
+		if c.pos >= 0 {
+			what = "before the corrupted key"
+			if c.at > c.pos {
+				what = "after the corrupted key"
+			}
+		}
+		r.Tab("cli_long_comment", mode+" "+longVars[c.long].Name+" "+what)
+	}
 	if c.pos >= 0 {
 		r.Tab("cli_corruption_kind", mode+" "+c.typ+":"+c.kind)
 		r.Tab("cli_corrupted_position", fmt.Sprintf("%d of %d", c.pos+1, c.n))
@@ -396,7 +484,11 @@ func runCLI(r *mon.Run, e *cliEnv, idx int, c cliCase, violate func(key, what st
 	if target != nil {
 		replay["message_addressed_to"] = target.Name
 	}
-	where := fmt.Sprintf("age %s with keyfile %q (%s)", strings.Join(cmd.Argv[1:], " "), data, f.describe())
+	where := fmt.Sprintf("age %s with keyfile %s (%s)", strings.Join(cmd.Argv[1:], " "), showFile(data), f.describe())
+	if c.mode == "enc-d-i" {
+		where = "passphrase-protected identity file: " + where
+		replay["keyfile_is"] = "the plaintext of the passphrase-protected file given to -i"
+	}
 
 	if stderr != "" {
 		r.Count("cli_stderr_searched", 1)
@@ -415,7 +507,7 @@ func runCLI(r *mon.Run, e *cliEnv, idx int, c cliCase, violate func(key, what st
 		bad := v.BadLines[0]
 		if res.Exit == 0 {
 			r.Tab("cli_outcome", mode+" invalid line NOT rejected")
-			if c.mode == "d-i" {
+			if c.dec() {
 				violate(fmt.Sprintf("%s:invalid-line-not-rejected:%s:%s", mode, badType, c.kind),
 					fmt.Sprintf("%s: exit 0 (%d bytes decrypted) although line %d (%q) is not a valid key", where, len(out), bad, v.Lines[bad-1].Text), replay)
 				return
@@ -448,7 +540,7 @@ func runCLI(r *mon.Run, e *cliEnv, idx int, c cliCase, violate func(key, what st
 		if !named {
 			violate(mode+":line-number", fmt.Sprintf("%s: exit %d, stderr %q does not name the offending line %v", where, res.Exit, stderr, v.BadLines), replay)
 		}
-		r.SampleN("cli-bad-"+c.mode, 1, map[string]any{"args": cmd.Argv[1:], "keyfile": string(data), "offending_line": bad, "kind": c.typ + ":" + c.kind, "exit": res.Exit, "stderr": stderr})
+		r.SampleN("cli-bad-"+c.mode+sampleClass(c.long), 1, map[string]any{"args": cmd.Argv[1:], "keyfile": sampleFile(data), "offending_line": bad, "kind": c.typ + ":" + c.kind, "exit": res.Exit, "stderr": stderr})
 
 	case len(v.Keys) == 0:
 		if res.Exit == 0 {
@@ -457,7 +549,7 @@ func runCLI(r *mon.Run, e *cliEnv, idx int, c cliCase, violate func(key, what st
 		}
 		r.Tab("cli_outcome", mode+" rejected: no key")
 
-	case c.mode == "d-i":
+	case c.dec():
 		inFile := false
 		for _, k := range want {
 			inFile = inFile || k == target
@@ -466,6 +558,8 @@ func runCLI(r *mon.Run, e *cliEnv, idx int, c cliCase, violate func(key, what st
 		case inFile && (res.Exit != 0 || !bytes.Equal(out, plain)):
 			violate(mode+":listed-identity-cannot-decrypt:"+typeClass(target.Type),
 				fmt.Sprintf("%s: message addressed to the key of a valid line (%s) was not decrypted: exit %d, %d bytes, stderr %q", where, target.Name, res.Exit, len(out), stderr), replay)
+		case !inFile && res.Exit == 0 && target == e.ghost:
+			violate(mode+":commented-out-key-decrypts", fmt.Sprintf("%s: a message addressed to the key that occurs only inside the #-comment line was decrypted", where), replay)
 		case !inFile && res.Exit == 0:
 			violate(mode+":decrypts-without-key", fmt.Sprintf("%s: message addressed to a key that is not in the file was decrypted", where), replay)
 		case inFile:
@@ -514,7 +608,7 @@ func runCLI(r *mon.Run, e *cliEnv, idx int, c cliCase, violate func(key, what st
 				r.Count("cli_tolerated_skips_with_warning", 1)
 			}
 		}
-		r.SampleN("cli-ok-"+c.mode, 1, map[string]any{"args": cmd.Argv[1:], "keyfile": string(data), "stanzas": len(want), "skipped_with_warning": len(v.Skipped), "result": "stanza i opens with the key of key line i; payload decrypts"})
+		r.SampleN("cli-ok-"+c.mode+sampleClass(c.long), 1, map[string]any{"args": cmd.Argv[1:], "keyfile": sampleFile(data), "stanzas": len(want), "skipped_with_warning": len(v.Skipped), "result": "stanza i opens with the key of key line i; payload decrypts"})
 	}
 }
 
